@@ -291,8 +291,24 @@ def main(argv):
         for comp in idx.get(s.rank, []):
             c.append(("getitem", r) + comp)
     l3 = level(c, 3, sample_every=500)
+    # the same index object bound in nested scopes: a complete sum over i inside another binding of i (an outer
+    # sum or an as_tensor), next to siblings that read i before and after the inner sum is evaluated
+    fi = sorted([s for s in l1 if s.rank == 0 and set(s.fid) == {"i"}], key=lambda s: (len(repr(s.recipe)), repr(s.recipe)))
+    fi = fi[: (5 if quick else 12)]
+    c = []
+    for a, b, d in itertools.product(fi, repeat=3):
+        inner = ("mul", a.recipe, b.recipe)
+        c += [
+            ("mul", ("mul", inner, d.recipe), ("div", d.recipe, ("num", 3))),
+            ("mul", ("add", ("mul", inner, d.recipe), ("abs", d.recipe)), a.recipe),
+            ("as_tensor", ("add", ("mul", inner, d.recipe), ("abs", d.recipe)), "i"),
+            ("as_tensor", ("conditional", ("lt", inner, ("num", 0.5)), d.recipe, ("neg", d.recipe)), "i"),
+            ("as_tensor", ("div", d.recipe, ("add", inner, ("num", 7))), "i"),
+            ("mul", ("sin", inner), ("mul", d.recipe, a.recipe)),
+        ]
+    l4 = level(c, 4, sample_every=200)
     run.bounds.update(
-        levels=[len(l0), len(l1), len(l2), len(l3)],
+        levels=[len(l0), len(l1), len(l2), len(l3), len(l4)],
         terminals=sorted(U.t),
         envs=[e.name for e in envs],
         mapping="Constant -> number; Coefficient -> callable f(x, derivatives) (one coefficient uses the f(x) signature), generated from the environment polynomials",
